@@ -462,6 +462,18 @@ class UserActions(object):
           continue
       recalc_cols.add(col_id)
 
+    # The doc action prevents recalculation of trigger formulas. Re-enable it for those that have
+    # no value yet, and (as for updates) for data-cleaning columns that depend on themselves.
+    for col_id, col_obj in table.all_columns.items():
+      if col_obj.is_formula() or not col_obj.has_formula():
+        continue
+      if col_id in recalc_cols:
+        self._engine.prevent_recalc(col_obj.node, filled_row_ids, should_prevent=False)
+      elif col_id in column_values and not table_id.startswith('_grist_'):
+        col_rec = self._docmodel.columns.lookupOne(tableId=table_id, colId=col_id)
+        if col_rec.recalcOnChangesToSelf:
+          self._engine.prevent_recalc(col_obj.node, filled_row_ids, should_prevent=False)
+
     self._engine.invalidate_records(table_id, filled_row_ids, data_cols_to_recompute=recalc_cols)
 
     return filled_row_ids
